@@ -157,7 +157,7 @@ def gen_view_request(rng):
     kind = rng.choice(["json", "badjson", "urlenc", "multipart", "raw", "none", "json-charset", "urlenc-charset", "empty-ct"] + (["multipart-many"] if rng.random() < 0.15 else []))
     body = b""
     if kind == "json":
-        body, ct = rng.choice([b'{"a": [1, 2]}', b'"\xc3\xa9"', b"[]"]), "application/json"
+        body, ct = rng.choice([b'{"a": [1, 2]}', b'"\xc3\xa9"', b"[]", b'\xef\xbb\xbf{"bom": 1}', '{"k": "v"}'.encode("utf-16"), '[1]'.encode("utf-32-le")]), "application/json"
     elif kind == "badjson":
         body, ct = rng.choice([b'{"a": ', b'"\xff"', b""]), "application/json"
     elif kind == "json-charset":
@@ -380,7 +380,7 @@ def check_hosts(ctx, rng):
 
 
 STATIC_PATHS = ["/a.txt", "/index.html", "/", "/dir", "/dir/", "/dir2", "/dir2/", "/x", "/x.html", "/é.txt", "/..name", "/nope", "/../secret.txt", "/dir/../a.txt", "/.hidden",
-                "/a.txt/", "/dir/b.txt", "//", "/%2e%2e", "/static/inner.txt", "", "/sock"]
+                "/a.txt/", "/dir/b.txt", "//", "/%2e%2e", "/static/inner.txt", "", "/sock", "/v1.2", "/dir/notes.txt", "//dir", "/a.txt/.", "/x/.", "/\u6587\u4ef6.txt", "/dir2.html"]
 
 
 def check_static(ctx, rng, apps, validators):
